@@ -175,4 +175,52 @@
 #define os_atomic_rmw_loop_give_up(expr) \
 		os_atomic_rmw_loop_give_up_with_fence(relaxed, expr)
 
+#ifdef DISPATCH_VERIF
+// verification hook: every os_atomic_* primitive first calls an optional
+// callback so a harness can perturb the schedule inside atomicity windows
+extern void (*volatile _dispatch_verif_atomic_hook)(const char *file, int line);
+#define _dispatch_verif_sched_point() ({ \
+		void (*_h)(const char *, int) = _dispatch_verif_atomic_hook; \
+		if (__builtin_expect(_h != 0, 0)) _h(__FILE__, __LINE__); })
+#undef os_atomic_load
+#define os_atomic_load(p, m) \
+		({ _dispatch_verif_sched_point(); \
+		atomic_load_explicit(_os_atomic_c11_atomic(p), memory_order_##m); })
+#undef os_atomic_store
+#define os_atomic_store(p, v, m) \
+		({ _dispatch_verif_sched_point(); \
+		atomic_store_explicit(_os_atomic_c11_atomic(p), v, memory_order_##m); })
+#undef os_atomic_xchg
+#define os_atomic_xchg(p, v, m) \
+		({ _dispatch_verif_sched_point(); \
+		atomic_exchange_explicit(_os_atomic_c11_atomic(p), v, memory_order_##m); })
+#undef os_atomic_cmpxchg
+#define os_atomic_cmpxchg(p, e, v, m) \
+		({ _os_atomic_basetypeof(p) _r = (e); _dispatch_verif_sched_point(); \
+		atomic_compare_exchange_strong_explicit(_os_atomic_c11_atomic(p), \
+		&_r, v, memory_order_##m, memory_order_relaxed); })
+#undef os_atomic_cmpxchgv
+#define os_atomic_cmpxchgv(p, e, v, g, m) \
+		({ _os_atomic_basetypeof(p) _r = (e); _dispatch_verif_sched_point(); \
+		_Bool _b = \
+		atomic_compare_exchange_strong_explicit(_os_atomic_c11_atomic(p), \
+		&_r, v, memory_order_##m, memory_order_relaxed); *(g) = _r; _b; })
+#undef os_atomic_cmpxchgvw
+#define os_atomic_cmpxchgvw(p, e, v, g, m) \
+		({ _os_atomic_basetypeof(p) _r = (e); _dispatch_verif_sched_point(); \
+		_Bool _b = \
+		atomic_compare_exchange_weak_explicit(_os_atomic_c11_atomic(p), \
+		&_r, v, memory_order_##m, memory_order_relaxed); *(g) = _r;  _b; })
+#undef _os_atomic_c11_op
+#define _os_atomic_c11_op(p, v, m, o, op) \
+		({ _os_atomic_basetypeof(p) _v = (v), _r; _dispatch_verif_sched_point(); \
+		_r = atomic_fetch_##o##_explicit(_os_atomic_c11_atomic(p), _v, \
+		memory_order_##m); (__typeof__(_r))(_r op _v); })
+#undef _os_atomic_c11_op_orig
+#define _os_atomic_c11_op_orig(p, v, m, o, op) \
+		({ _dispatch_verif_sched_point(); \
+		atomic_fetch_##o##_explicit(_os_atomic_c11_atomic(p), v, \
+		memory_order_##m); })
+#endif // DISPATCH_VERIF
+
 #endif // __DISPATCH_SHIMS_ATOMIC__
